@@ -43,10 +43,12 @@ theorem c18s_meta_enabled (s : MState) (env : InitEnv) (hx : s.exited = false) :
   ⟨fun hr => (mstep_reader_enabled s env hr hx).1, fun hr => (mstep_reader_enabled s env hr hx).2,
    fun hw => (mstep_writer_enabled s env hw hx).1, fun hw => (mstep_writer_enabled s env hw hx).2⟩
 
-theorem c18s_data_enabled (s : DState) (x : String) :
-    (s.rst = 2 → s.rmid = none → s.rq = [] → s.inbound ≠ [] → (gstep s "R" .recv x).isSome) ∧
+/-- (as long as the process has not exited; the reader's `recv` is also enabled when the peer has closed the connection: it
+    is then the failing read of Conc/DataFault.lean.) -/
+theorem c18s_data_enabled (s : DState) (x : String) (hx : s.exited = false) :
+    (s.rst = 2 → s.rmid = none → s.rq = [] → (s.inbound ≠ [] ∨ s.inEnd = true) → (gstep s "R" .recv x).isSome) ∧
     (s.rst = 2 → s.rmid = none → ∀ l rest, s.rq = .reply l :: rest → (gstep s "R" .put x).isSome) ∧
     (s.wst = 2 → s.wpc = .get → s.sendQ ≠ [] → ∀ b, (gstep s "W" (.get b) x).isSome) ∧
-    (s.wst = 2 → ∀ m, s.wpc = .send m → (gstep s "W" .send x).isSome) := gstep_reader_writer_enabled s x
+    (s.wst = 2 → ∀ m, s.wpc = .send m → (gstep s "W" .send x).isSome) := gstep_reader_writer_enabled s x hx
 
 end Ari.Conc
